@@ -452,6 +452,9 @@ func sessionBounce(r *monitor.Run, idx int, rng *rand.Rand) {
 		for i := 0; i < k; i++ {
 			n++
 			f := fmt.Sprintf("bn/%s/%d", who, rng.Intn(8))
+			if rng.Intn(4) == 0 {
+				f = "$share/grp/" + f // shared subscriptions are part of the state that is resynchronised
+			}
 			if rng.Intn(3) == 0 {
 				_, _ = c.Unsubscribe([]string{f}, step)
 			} else {
@@ -490,6 +493,57 @@ func sessionBounce(r *monitor.Run, idx int, rng *rand.Rand) {
 	}
 	r.Count("session_bounce_cases", 1)
 	r.Nontrivial(fmt.Sprintf("bounce|%d", idx))
+}
+
+// outageEmptyResync: the peer forgets the node's session while the stream is down, the node emits events during
+// the outage that cancel out (subscribe, unsubscribe), so the full state it sends at the clean-start handshake is
+// empty. Whatever was pending from before must be gone with the old session; events emitted afterwards arrive.
+func outageEmptyResync(r *monitor.Run, idx int) {
+	a, err := fed.Start(fmt.Sprintf("c16OA%d", idx), nil, false, nil)
+	if err != nil {
+		r.Inconclusive(err.Error())
+		return
+	}
+	defer func() { go a.Stop() }()
+	b, err := fed.Start(fmt.Sprintf("c16OB%d", idx), []string{a.Gossip}, true, nil)
+	if err != nil {
+		r.Inconclusive(err.Error())
+		return
+	}
+	defer func() { go b.Stop() }()
+	if !fed.WaitView(b, a, settle) || !fed.WaitView(a, b, settle) {
+		r.Inconclusive("outage: federation not established")
+		return
+	}
+	ca, _ := wire.Dial("ca", a.B.Addr, mqttx.V5)
+	defer ca.Close()
+	_, _ = ca.Connect(&mqttx.Packet{ClientID: "outage-a", CleanStart: true}, step)
+	// the stream A -> B goes through B's proxy: take it down and keep it down
+	b.Proxy.Refuse(true)
+	b.Proxy.CutNow()
+	if !b.F.VerifBouncePeer(a.Name) {
+		r.Inconclusive("outage: peer unknown")
+		return
+	}
+	for i := 0; i < 3; i++ {
+		f := fmt.Sprintf("out/tmp/%d", i)
+		_, _ = ca.Subscribe([]mqttx.Sub{{Filter: f, QoS: 1}}, 0, step)
+		_, _ = ca.Unsubscribe([]string{f}, step)
+	}
+	b.Proxy.Refuse(false)
+	b.Proxy.ClearCuts()
+	// the stream comes back, the handshake is a clean start with an empty state
+	time.Sleep(1500 * time.Millisecond)
+	r.Eval(1)
+	r.Count("outage_empty_resync_cases", 1)
+	for i := 0; i < 3; i++ {
+		_, _ = ca.Subscribe([]mqttx.Sub{{Filter: fmt.Sprintf("out/after/%d", i), QoS: 1}}, 0, step)
+	}
+	if !fed.WaitView(b, a, settle) {
+		r.Violation("outage.resync", fmt.Sprintf("after an outage with a lost session and an empty resynchronisation, B's view of A %v never became A's local set %v", b.F.VerifFedView(a.Name), a.F.VerifLocalTopics()), nil)
+		return
+	}
+	r.Nontrivial(fmt.Sprintf("outage|%d", idx))
 }
 
 func genScripts(rng *rand.Rand, n int, thorough bool) []Script {
@@ -594,5 +648,8 @@ func Run(r *monitor.Run) {
 	brng := r.Rand("bounce")
 	for i := 0; i < r.Pick(3, 20); i++ {
 		sessionBounce(r, i, brng)
+	}
+	for i := 0; i < r.Pick(1, 5); i++ {
+		outageEmptyResync(r, i)
 	}
 }
